@@ -53,7 +53,7 @@ type bmCase struct {
 	ResetHeight    []bool   `json:"reset_observed_height"` // governance raw-store update wipes the last observed external height
 }
 
-var bmKinds = []string{"send", "send", "send", "cancel", "incfee", "batch", "batch", "bridgecall", "deposit", "deposit", "inboundcall", "exec", "exec", "batchexec", "batchexec", "callresult", "tick", "tick", "fxblocks"}
+var bmKinds = []string{"send", "send", "send", "send", "cancel", "incfee", "batch", "batch", "batch", "batchexec", "bridgecall", "deposit", "deposit", "inboundcall", "exec", "exec", "batchexec", "batchexec", "callresult", "tick", "tick", "fxblocks"}
 
 func genBmCase(t *rapid.T, maxOps int) bmCase {
 	c := bmCase{}
@@ -62,7 +62,7 @@ func genBmCase(t *rapid.T, maxOps int) bmCase {
 		c.CallTimeoutMs = append(c.CallTimeoutMs, rapid.SampledFrom([]uint64{3_600_001, 7_200_000, 604_800_000}).Draw(t, "cto"))
 		c.ExtBlockMs = append(c.ExtBlockMs, rapid.SampledFrom([]uint64{100, 3_000, 15_000, 60_000}).Draw(t, "ebt"))
 		c.FxBlockMs = append(c.FxBlockMs, rapid.SampledFrom([]uint64{100, 5_000, 7_000}).Draw(t, "fbt"))
-		c.ResetHeight = append(c.ResetHeight, rapid.IntRange(0, 5).Draw(t, "reset") == 0)
+		c.ResetHeight = append(c.ResetHeight, rapid.IntRange(0, 14).Draw(t, "reset") == 0)
 	}
 	n := rapid.IntRange(4, maxOps).Draw(t, "nops")
 	for i := 0; i < n; i++ {
@@ -425,6 +425,12 @@ func runBridgeMachine(c bmCase, which string, rec *ev.Recorder) *Failure {
 		switch op.Kind {
 		case "send":
 			amt, fee := op.Amt, op.Fee
+			// later transfers offer more, so that a newer batch is at least as profitable as the last one
+			for _, mb := range s.batches {
+				if mb.Chain == ch && mb.Tok == ti {
+					fee += 60
+				}
+			}
 			dest := sim.ExtAddrN(ch, "dest", op.Idx)
 			var ok bool
 			if op.EVM {
@@ -528,6 +534,9 @@ func runBridgeMachine(c bmCase, which string, rec *ev.Recorder) *Failure {
 				}
 			}
 		case "batch":
+			// one batch per fxcore block: move to the next block first
+			ctx = ctx.WithBlockHeight(ctx.BlockHeight() + 1)
+			sctx = sctx.WithBlockHeight(ctx.BlockHeight())
 			sender := f.Oracles[ch][0].Bridger.Acc().String()
 			lastBatchPre := uint64(0)
 			for _, mb := range s.batches {
